@@ -21,7 +21,7 @@ class C02(rowgen.RowGenProp):
                   "every supported stage (finite tables by decide +kernel). correspondence: notation strings "
                   "exhaustively to a length bound over the alphabet 'x-.&+, 1234560ETe', grammar-directed notation "
                   "rendered from an AST with random dot placement, start index -30..30, custom start rows, CCCBR XML "
-                  "through the real _parse_xml; oracle = independent Python reference interpreter on the AST. "
+                  "through the real _parse_xml; the notation round trip convertPN (textOf blocks) = denoteAll blocks is a theorem (any dots around crosses, & / + prefixes, commas) and its statement is run against the real convert_pn; oracle = independent Python reference interpreter on the AST. "
                   "non-trivial = converts without error to >=2 changes / produces >=2 rows")
 
     def cases(self, rng, tier):
